@@ -229,6 +229,16 @@ def sketch_space(tier):
                     out.append(seqjob(name("c14", k2), **k2))
             else:
                 out.append(seqjob(name("c14", kw), **kw))
+        # ... also for lookups of entries that are dead but not purged yet (expired, or
+        # hidden by an invalidate_all at a later reading): exactly one record each
+        for ex in (dict(ttl=2), dict(tti=2), dict()):
+            kw = dict(dict(kind=kind, cap=2, alpha="basic", hash="spread", keys=2, D=7 if thorough else 6, A=2 if ex else 1, Q=2), **ex)
+            if kind == "S":
+                for rg in regimes():
+                    k2 = dict(kw, **rg)
+                    out.append(seqjob(name("c14x", k2), **k2))
+            else:
+                out.append(seqjob(name("c14x", kw), **kw))
     return out
 
 
@@ -274,6 +284,14 @@ def scripted(kinds=("U", "S")):
         out.append({"id": "long-massinval-ttl-%s" % kind, "argv": ["longrun", spec(kind=kind, cap="none", ttl=3, keys=3, A=9), "massinval", "150"]})
         for n in (10, 12):
             out.append({"id": "long-manyvictims-%s-%d" % (kind, n), "argv": ["longrun", spec(kind=kind, cap=n, w=1, keys=3, lru=1, autosync=1 if kind == "S" else 0, A=0), "manyvictims", str(n)]})
+        # warm newcomers (estimate 7) against hot residents, ~250 distinct newcomer keys
+        for cap, h in ((4, "spread"), (4, "collide"), (2, "spread")):
+            out.append({"id": "long-warm-%s-%d-%s" % (kind, cap, h), "argv": ["longrun", spec(kind=kind, cap=cap, w=0, hash=h, keys=3, lru=1, autosync=1 if kind == "S" else 0, A=0), "warm", "250"]})
+    # the victim walk of an admission contest across leftovers of invalidated keys
+    # (sync cache, ops stay queued until sync())
+    for pat, n in (("staleskips5", 8), ("staleskips5", 6), ("staleskips33", 8), ("staleskips33", 10)):
+        out.append({"id": "long-%s-%d" % (pat, n), "argv": ["longrun", spec(kind="S", cap=n, w=1, keys=3, lru=1, autosync=0, beyond=1, tick=1000, A=0), pat, str(n)]})
+    out.append({"id": "long-warm-S-batched", "argv": ["longrun", spec(kind="S", cap=4, w=0, keys=3, lru=1, autosync=0, beyond=1, tick=1000, A=0), "warm", "250"]})
     return out
 
 
